@@ -102,6 +102,17 @@ def setField (c : Config) (k v : String) : Upd :=
   | "interface_listeners.channel_buffer_size" => num .int v fun x => { c with ilBuf := x }
   | "network.so_sndbuf" => num .size v fun x => { c with nwSnd := x }
   | "network.so_rcvbuf" => num .size v fun x => { c with nwRcv := x }
+  | "upstream.healthcheck.domain_template" => str v fun x => { c with hcTmpl := x }
+  | "check.node_location" => str v fun x => { c with ckLoc := x }
+  | "check.node_name" => str v fun x => { c with ckName := x }
+  | "server_groups.0.ddr.device_records.https_port" => num .u16 v fun x => { c with devHttps := x }
+  | "server_groups.0.ddr.device_records.quic_port" => num .u16 v fun x => { c with devQuic := x }
+  | "server_groups.0.ddr.device_records.tls_port" => num .u16 v fun x => { c with devTls := x }
+  | "server_groups.0.ddr.public_records.https_port" => num .u16 v fun x => { c with pubHttps := x }
+  | "server_groups.0.ddr.public_records.quic_port" => num .u16 v fun x => { c with pubQuic := x }
+  | "server_groups.0.ddr.public_records.tls_port" => num .u16 v fun x => { c with pubTls := x }
+  | "interface_listeners.list.eth0_plain_dns.port" => num .u16 v fun x => { c with ilPort0 := x }
+  | "interface_listeners.list.eth0_plain_dns_secondary.port" => num .u16 v fun x => { c with ilPort1 := x }
   | _ => .unknown
 
 def dropSection (c : Config) (k : String) : Option Config :=
@@ -131,6 +142,22 @@ def dropSection (c : Config) (k : String) : Option Config :=
   | "filters.rule_list_cache" => some { c with pRlc := false }
   | "interface_listeners" => some { c with pIl := false }
   | "network" => some { c with pNw := false }
+  | "upstream.servers" => some { c with pUpSrv := false }
+  | "upstream.fallback.servers" => some { c with pFbSrv := false }
+  | "query_log" => some { c with pQl := false }
+  | "query_log.file" => some { c with pQlFile := false }
+  | "filtering_groups" => some { c with pFg := false }
+  | "filtering_groups.0.parental" => some { c with pFg0Par := false }
+  | "filtering_groups.0.rule_lists" => some { c with pFg0Rl := false }
+  | "filtering_groups.0.safe_browsing" => some { c with pFg0Sb := false }
+  | "server_groups" => some { c with pSg := false }
+  | "server_groups.0.ddr" => some { c with pDdr := false }
+  | "server_groups.0.servers" => some { c with pSrvs := false }
+  | "server_groups.0.tls" => some { c with pTls := false }
+  | "connectivity_check" => some { c with pCc := false }
+  | "access" => some { c with pAc := false }
+  | "additional_metrics_info" => some c
+  | "interface_listeners.list" => some { c with pIlList := false }
   | _ => none
 
 /-- Apply the tokens of a `cfg` line; `none` = malformed line. -/
@@ -182,7 +209,8 @@ def step (s : S) : List String → S × String
         s!"hcinit={if c.hcEnabled then c.hcTimeout else 0} " ++
         s!"bk={c.bkCount},{c.bkPeriod},{c.bkDur},{c.est} v4={c.v4Count},{c.v4Ivl},{c.v4Len} " ++
         s!"v6={c.v6Count},{c.v6Ivl},{c.v6Len} tcp={showB c.tcpEnabled},{c.tcpMax} " ++
-        s!"quic={showB c.quicEnabled},{c.quicMax} dns={c.dnsRead},{c.dnsWrite},{c.dnsIdle},{c.dnsUdp}")
+        s!"quic={showB c.quicEnabled},{c.quicMax} dns={c.dnsRead},{c.dnsWrite},{c.dnsIdle},{c.dnsUdp} " ++
+        s!"dot={showB c.tcpEnabled},{c.tcpMax},{c.dnsIdle},{c.dnsRead},{c.dnsWrite}")
   | ["build"] =>
     match build s.c with
     | .ok _ => (s, "ok")
